@@ -94,8 +94,13 @@ def bulk_stats(sl):
         items.append({op: data})
         failed_flags.append(fails)
     any_failed = core.s_or(*failed_flags)
-    # ES contract assumed: `errors` is true whenever an item counts as failed (see DESIGN §C19 for replica-only failures)
-    errors = bool(any_failed)
+    # Elasticsearch sets `errors` when an item carries an error. It leaves it false for items that Rally's own rule (status > 299 or
+    # failed shard copies) nevertheless counts as failed: a delete of a missing document (404, result not_found), a write acknowledged
+    # by the primary whose replica failed. In that region the fast path (which trusts the flag) and the detailed path disagree: listed
+    # as a known finding (known_findings.json, region below); everywhere else `errors` is true iff an item counts as failed.
+    flag_false_although_failed = bool(fresh_bool("errors_flag_false_although_an_item_counts_as_failed")) if sl.get("flag_may_be_false") else False
+    core.region("errors-false-although-an-item-counts-as-failed", core.s_and(flag_false_although_failed, any_failed))
+    errors = bool(any_failed) and not flag_false_although_failed
     took = fresh_int("took", 0)
     tree = {}
     order = [["took", "errors", "items"], ["errors", "items", "took"], ["items", "took", "errors"]][concrete(fresh_int("key_order", 0, 2)) if n == 1 else (n % 3)]
@@ -133,7 +138,7 @@ def bulk_stats(sl):
     observe("fast path with another unit: success count only known after a full parse", simple_other_unit["success-count"] == (n - n_failed if errors else None))
     observe("both paths agree", (simple["success"], simple["success-count"], simple["error-count"]) == (detailed["success"], detailed["success-count"], detailed["error-count"]))
     if n_failed:
-        observe("both paths give the same error description", simple["error-description"] == detailed["error-description"])
+        observe("both paths give the same error description", simple.get("error-description") == detailed.get("error-description"))
     observe("detailed: one op counter per item", sum(c["item-count"] for c in detailed["ops"].values()) == n)
 
 
@@ -369,10 +374,11 @@ READS = [runner.parse, runner.BulkIndex.simple_stats, runner.BulkIndex.detailed_
          runner.CompositeAggExtractor.__call__]
 
 HARNESSES = [
-    Harness("bulk_stats", bulk_stats, "symbolic", lambda tier: [{"items": 1}, {"items": 2, "_w": 2}, {"items": 2, "ops": True, "_w": 3}] + [{"items": 3, "shards_mask": m, "_w": 5} for m in range(8)]
+    Harness("bulk_stats", bulk_stats, "symbolic", lambda tier: [{"items": 1}, {"items": 2, "_w": 2}, {"items": 2, "ops": True, "_w": 3}, {"items": 2, "flag_may_be_false": True, "_w": 3}] + [{"items": 3, "shards_mask": m, "_w": 5} for m in range(8)]
             + ([{"items": 4, "shards_mask": m, "_w": 9} for m in range(16)] if tier == "thorough" else []),
             reads=READS, stubs=["ijson.parse replaced by an event generator over the response tree and json.loads by the tree (symbolic paths); the real ijson/json on native replays and validations"],
-            assumptions=["`errors` is true whenever an item counts as failed by Rally's rule (status > 299 or failed shard copies); replica-only failures with errors=false are outside (DESIGN §C19)"],
+            assumptions=["`errors` is true iff an item counts as failed by Rally's rule (status > 299 or failed shard copies), except in the slice flag_may_be_false, "
+                         "where the flag may be false although an item counts as failed (404 delete, failed replica): the two paths disagree there - KNOWN FINDING, region errors-false-although-an-item-counts-as-failed"],
             bounds={"items": "<=3 quick / <=4 thorough", "status": "symbolic 297..302 (the code only compares with 299)", "failed shards": "symbolic 0..1, _shards and error object optional", "key order": "3 rotations (all three for one item)"},
             doc="fast and detailed bulk accounting agree with the item list"),
     Harness("search_parsing", search_parsing, "bounded-exhaustive",
